@@ -144,6 +144,41 @@ def run_determinism(report, n_sets, rng, formats):
     report.sample(dict(kind="e2e-determinism", variants=[v[0] for v in variants], format=fmt))
 
 
+def run_glob_order(report, rng):
+    """sources named by a glob in the configuration: two copies of one project whose directory entries were created in
+    opposite orders (on tmpfs a directory lists its entries in creation order) must give the same bytes"""
+    import tempfile
+
+    base = Path("/dev/shm") if Path("/dev/shm").is_dir() and os.access("/dev/shm", os.W_OK) else None
+    if base is None:
+        report.notes["glob_order"] = "no tmpfs available: not run"
+        return
+    docs, srcs = e2e.gen_sources(rng, n=4)
+    top = Path(tempfile.mkdtemp(prefix="verif-c08glob-", dir=base))
+    try:
+        hashes, orders = {}, {}
+        for tag, seq in (("created in name order", list(srcs)), ("created in reverse order", list(reversed(srcs)))):
+            proj = top / tag.split()[2]
+            (proj / "src").mkdir(parents=True)
+            for s_ in seq:
+                (proj / "src" / s_[0]).write_text(s_[1])
+            (proj / "font.toml").write_text('output_file="Font.ttf"\ncolor_format="glyf_colr_1"\nfamily="Det Test"\n[axis.wght]\nname="Weight"\ndefault=400\n'
+                                            '[master.regular]\nstyle_name="Regular"\nsrcs=["src/*.svg"]\n[master.regular.position]\nwght=400\n')
+            rc, out = cli_build(proj, proj / "build", [str(proj / "font.toml")], proj)
+            orders[tag] = [p_.name for p_ in (proj / "src").iterdir()]
+            if rc != 0:
+                report_failure(report, "glob_order_build", dict(kind="e2e-determinism", variant=tag, exit=rc, log=out[-1200:]))
+                return
+            hashes[tag] = sha(proj / "build" / "Font.ttf")
+        report.count(("glob-order", tuple(s_[1] for s_ in srcs)), orders["created in name order"] != orders["created in reverse order"])
+        report.hist("determinism.format", "glyf_colr_1, sources by glob")
+        report.notes["glob_order.listing_orders_differ"] = orders["created in name order"] != orders["created in reverse order"]
+        if len(set(hashes.values())) != 1:
+            report_failure(report, "glob_order", dict(kind="e2e-determinism", format="glyf_colr_1", font_sha256=hashes, directory_listing=orders, sources=[s_[1] for s_ in srcs]))
+    finally:
+        shutil.rmtree(top, ignore_errors=True)
+
+
 def graph_case(build_ninja):
     """the driver's graph as a Coq literal (files and commands numbered), in topological order"""
     rules, edges = ninjafile.parse(build_ninja)
@@ -375,6 +410,8 @@ def main(argv):
         run_sources(report, 150 if tier == "quick" else 2000, rng)
         run_graphs(report, 5 if tier == "quick" else 60, rng)
     run_determinism(report, 3 if tier == "quick" else 40, rng, ["glyf_colr_1", "picosvg", "cbdt", "glyf_colr_0", "untouchedsvg", "sbix", "cff_colr_1"])
+    if not report.violations:
+        run_glob_order(report, rng)
     run_hermetic(report, rng, 1 if tier == "quick" else 6)
     if not st["proof_ok"] and not report.violations:
         report.violation("proof", dict(kind="proof", theorem="Props/C08.v", detail=report.notes.get("proof_failure")), found_input=False)
